@@ -166,6 +166,7 @@ func runC17(p *core.Prog, r *core.Report) {
 	c17R6(p, r)
 	c12R6(p, r, "C17.R6")
 	c17R7(p, r)
+	c17R8(p, r)
 }
 
 func c17R1(p *core.Prog, r *core.Report, pi *pqInfo) {
@@ -881,4 +882,73 @@ func isNewStruct(v ssa.Value) bool {
 		return true
 	}
 	return false
+}
+
+// ---------------------------------------------------------------------------------------------
+// R8: a waiter finds itself by something only it has
+
+func c17R8(p *core.Prog, r *core.Report) {
+	const rule = "C17.R8"
+	r.Rule(rule, "waiter identity: where Acquire looks up its own position in a waiting list (to leave the queue on cancellation) the search key is the address of a variable whose type cannot have size zero — the wake-up channel created by this call — and not the address of the entry: the entry type is a type parameter, the CLIs instantiate it with struct{}, and all zero-size variables may share one address, so a cancelled waiter would remove another waiter's channel", 1)
+	fn := pqMethod(p, "Acquire")
+	if fn == nil {
+		r.MissingAnchor(rule, pqRel+".(*Queue).Acquire")
+		return
+	}
+	fname := p.FuncName(fn)
+	scope := core.Helpers(fn, 2)
+	lab := labeler{}
+	n := 0
+	mayBeZeroSize := func(t types.Type) bool {
+		switch u := t.(type) {
+		case *types.TypeParam:
+			return true
+		default:
+			_ = u
+		}
+		if st, ok := t.Underlying().(*types.Struct); ok && st.NumFields() == 0 {
+			return true
+		}
+		if at, ok := t.Underlying().(*types.Array); ok && at.Len() == 0 {
+			return true
+		}
+		return false
+	}
+	for _, f := range sortedFuncs(scope) {
+		if f.Name() == "release" {
+			continue // release removes one entry equal to the one given: identical entries are interchangeable there
+		}
+		core.Calls(f, func(c ssa.CallInstruction) {
+			cal := core.Callee(c)
+			if cal == nil || cal.Pkg() == nil || cal.Pkg().Path() != "slices" || cal.Name() != "Index" {
+				return
+			}
+			args := c.Common().Args
+			if len(args) != 2 {
+				return
+			}
+			// the searched list is a waiting list of the queue (a mutable field other than the active list is enough: both waiting lists are parallel)
+			if u, ok := args[0].(*ssa.UnOp); !ok || u.Op != token.MUL {
+				return
+			} else if _, isField := u.X.(*ssa.FieldAddr); !isField {
+				return
+			}
+			n++
+			label := lab.next("own position searched by")
+			key := args[1]
+			pt, isPtr := key.Type().Underlying().(*types.Pointer)
+			if !isPtr {
+				r.Held(rule, p.FuncName(f), label, p.Pos(c.Pos()), "the key is a value, not an address")
+				return
+			}
+			if mayBeZeroSize(pt.Elem()) {
+				r.Violated(rule, p.FuncName(f), label, p.Pos(c.Pos()), "the key is the address of a "+pt.Elem().String()+" value; for a zero-size entry type every waiter has the same address and the first queued waiter is removed instead of the caller")
+			} else {
+				r.Held(rule, p.FuncName(f), label, p.Pos(c.Pos()), "the key is the address of a "+pt.Elem().String()+", unique to this call")
+			}
+		})
+	}
+	if n == 0 {
+		r.Held(rule, fname, "no search of a waiting list by address", p.Pos(fn.Pos()), "the waiter does not look itself up by address")
+	}
 }
